@@ -23,6 +23,7 @@ import Driver.EventLog
 import Driver.Lifecycle
 import Driver.HandlerStatus
 import Driver.EventSerial
+import Driver.StreamGate
 
 def main (args : List String) : IO UInt32 := do
   let stdin ← IO.getStdin
@@ -51,4 +52,5 @@ def main (args : List String) : IO UInt32 := do
   | ["lifecycle"] => Drv.loop stdin Drv.Lifecycle.step {}; return 0
   | ["handlerstatus"] => Drv.loop stdin Drv.HandlerStatus.step {}; return 0
   | ["eventserial"] => Drv.loop stdin Drv.EventSerial.step {}; return 0
+  | ["streamgate"] => Drv.loop stdin Drv.StreamGate.step {}; return 0
   | _ => IO.eprintln "usage: wfdriver <model>"; return 2
